@@ -137,13 +137,13 @@ def TextStableP (S : Schema) : Prop :=
   ∀ t q q1 q2, (S.dfa t).matchType q S.textTy = some q1 →
     (S.dfa t).matchType q1 S.textTy = some q2 → q2 = q1
 
-theorem Dfa.run_append (d : Dfa) : ∀ (q : Nat) (a b : List TypeId),
+theorem Dfa.run_append_sv (d : Dfa) : ∀ (q : Nat) (a b : List TypeId),
     d.run q (a ++ b) = (d.run q a).bind (fun q' => d.run q' b)
   | q, [], b => by simp [Dfa.run]
   | q, x :: xs, b => by
     simp only [List.cons_append, Dfa.run]
     split
-    · exact Dfa.run_append d _ xs b
+    · exact Dfa.run_append_sv d _ xs b
     · rfl
 
 theorem Dfa.run_text_text {S : Schema} (hts : TextStableP S) (t : TypeId) (q r : Nat)
@@ -176,7 +176,7 @@ theorem run_addNode {S : Schema} (hts : TextStableP S) (t : TypeId) (T : List No
     · have hT := getLast?_decomp hl
       rw [hT] at h
       simp only [types_append, List.append_assoc] at h ⊢
-      rw [Dfa.run_append] at h ⊢
+      rw [Dfa.run_append_sv] at h ⊢
       cases hq : (S.dfa t).run q (S.types T.dropLast) with
       | none => rw [hq] at h; simp at h
       | some q' =>
